@@ -80,13 +80,15 @@ def main():
                 demo = demos[0]
                 pkg = pkg_of(demo)
                 sub = {"vgirpc": "vgirpc", "vgirpc_test": "vgirpc", "s3": "vgirpc/s3", "gcs": "vgirpc/gcs", "otel": "vgirpc/otel",
-                       "vgiotel": "vgirpc/otel"}.get(pkg, "vgirpc")
+                       "vgiotel": "vgirpc/otel", "vgigcs": "vgirpc/gcs", "vgis3": "vgirpc/s3"}.get(pkg, "vgirpc")
                 dst = os.path.join(wt, sub, f"zz_demo_{a.prop}_test.go")
                 shutil.copy(demo, dst)
                 with open(demo, errors="replace") as f:
                     names = re.findall(r"^func (Test\w+)\(", f.read(), re.M)
                 run = "^(" + "|".join(names) + ")$" if names else "Demo"
-                cmd = f"go test -vet=off -count=1 -run '{run}' . 2>&1 | tail -12"
+                with open(demo, errors="replace") as f:
+                    tags = "-tags leakcheck " if "go:build leakcheck" in f.read() else ""
+                cmd = f"go test {tags}-vet=off -count=1 -run '{run}' . 2>&1 | tail -12"
                 rc1, o1 = sh(cmd, cwd=os.path.join(wt, sub))
                 fail_with = "FAIL" in o1 or "panic:" in o1
                 # (git stash is shared between worktrees of one repository: never use it here)
